@@ -917,4 +917,34 @@ def loopBodyDce (cc : Bool) (lvs : List (Nat × Operand × Operand)) (body : Lis
 def keptLoopVars (cc : Bool) (lvs : List (Nat × Operand × Operand)) (body : List US) (after : List Nat) : List Nat :=
   ((loopVarsStage1 cc lvs body).filter fun lv => (loopBodyDce cc lvs body after).2.contains lv.1).map (·.1)
 
+/-! ## DCE through branches (`dead_code_elimination.rs:90-175`): blocks of statements, `SingleIf`
+and `IfElse` (with final assignments) over statement blocks. The used-name set is threaded backwards
+and shared by the two branches of an `IfElse` (the second branch sees the first one's uses). -/
+
+def dceS : List Simple → List Nat → List Simple × List Nat
+  | [], live => ([], live)
+  | .bin x op a b :: r, live =>
+    if !(dceS r live).2.contains x && op != .div && op != .mod then dceS r live
+    else (.bin x op a b :: (dceS r live).1, a.vars ++ b.vars ++ (dceS r live).2)
+  | .print a :: r, live => (.print a :: (dceS r live).1, a.vars ++ (dceS r live).2)
+  | .brk a :: r, live => (.brk a :: (dceS r live).1, a.vars ++ (dceS r live).2)
+
+def keptFas (fas : List (Nat × Operand × Operand)) (live : List Nat) : List (Nat × Operand × Operand) :=
+  fas.filter fun fa => live.contains fa.1
+
+def dceL : List LStmt → List Nat → List LStmt × List Nat
+  | [], live => ([], live)
+  | .s st :: r, live =>
+    ((dceS [st] (dceL r live).2).1.map LStmt.s ++ (dceL r live).1, (dceS [st] (dceL r live).2).2)
+  | .sif c inv body :: r, live =>
+    let db := dceS body (dceL r live).2
+    if db.1.isEmpty then ((dceL r live).1, db.2) else (.sif c inv db.1 :: (dceL r live).1, c.vars ++ db.2)
+  | .ife c s1 s2 fas :: r, live =>
+    let fas' := keptFas fas (dceL r live).2
+    let l0 := fas'.flatMap (fun fa => fa.2.1.vars ++ fa.2.2.vars) ++ (dceL r live).2
+    let d1 := dceS s1 l0
+    let d2 := dceS s2 d1.2
+    if d1.1.isEmpty && d2.1.isEmpty && fas'.isEmpty then ((dceL r live).1, d2.2)
+    else (.ife c d1.1 d2.1 fas' :: (dceL r live).1, c.vars ++ d2.2)
+
 end SamVerif.Opt
